@@ -144,7 +144,7 @@ def _random_case(rng, u):
 
 
 def cases(rng, tier):
-    nuniv, per, maxn = (6, 8, 9) if tier == "quick" else (50, 14, 14)
+    nuniv, per, maxn = (6, 8, 9) if tier == "quick" else (36, 12, 14)
     for k in range(nuniv):
         u = C.gen_universe(rng, rng.randint(4, maxn), p_late=0.0, p_ghost=0.06 if k % 2 else 0.0, p_left_ghost=0.02)
         for _ in range(per):
@@ -158,6 +158,8 @@ def impl(case):
 
 
 def impl_obs(case, obs):
+    if not isinstance(obs, dict):          # driver error
+        return obs
     return C.model_obs(case, obs)
 
 
@@ -194,6 +196,8 @@ def _invariant_problems(case, state):
 
 
 def oracle(case, obs):
+    if not isinstance(obs, dict):          # driver error: reported by the framework
+        return None
     m, orc = obs["model"], obs["oracle"]
     if not m["wf"]:
         return "universe not well formed"
@@ -249,6 +253,8 @@ def finding_matches(fid, case, obs, why):
 
 
 def nontrivial(case, obs):
+    if not isinstance(obs, dict):
+        return False
     return bool(case.get("fb")) and any(s[0] == "ok" and s[1] > 0 for s in obs["model"]["steps"])
 
 
